@@ -161,8 +161,8 @@ def collect_schedule_data(name: str, device: Device) -> dict[str, Any]:
     """Return a schedule data collected from the device."""
     return {
         ATTR_TYPE: name,
-        ATTR_SWITCH: device.data[f"{name}_{ATTR_SCHEDULE_SWITCH}"],
-        ATTR_PARAMETER: device.data[f"{name}_{ATTR_SCHEDULE_PARAMETER}"],
+        ATTR_SWITCH: int(device.data[f"{name}_{ATTR_SCHEDULE_SWITCH}"]),
+        ATTR_PARAMETER: int(device.data[f"{name}_{ATTR_SCHEDULE_PARAMETER}"]),
         ATTR_SCHEDULE: device.data[ATTR_SCHEDULES][name],
     }
 
